@@ -1,11 +1,13 @@
 (* Extraction of the executable models (ExtrOcamlBasic only: bool, option,
    list, prod, unit, sumbool map to OCaml's; Z/N/positive stay inductive). *)
 From Coq Require Import Extraction ExtrOcamlBasic.
-From STS Require Import Model.Ranges Model.Chunk.
+From STS Require Import Model.Ranges Model.Chunk Model.Queue.
 Extraction Language OCaml.
 Set Extraction Optimize.
 Extraction "model.ml"
   add_part add_part_replaced part_exists complete covered_b norm subset_b
   same_set_b compatible_b discipline_b sorted_disjoint_b missing sort_ranges
   chunks_plain chunks_rec send_size fluff_of pack init_bstate payloads dropped
-  tiles_from_b tiles_ranges_b all_le_b bin_split new_bin is_full.
+  tiles_from_b tiles_ranges_b all_le_b bin_split new_bin is_full
+  push pop group_ready has_name find_group is_alloc le_order name_eqb name_ltb
+  OFIFO OLIFO OALPHA ONONE prio_sorted files_sorted qrun.
